@@ -23,7 +23,14 @@ Pad(v) == ToBytes(v, Word \div 8)
 
 Binary == {"add", "sub", "mul", "div", "add_assign", "sub_assign", "mul_assign"}
 Unary  == {"neg", "double", "square", "cube", "inv", "conj", "bytes_roundtrip"}
-Exps   == << <<>>, <<1>>, <<2>>, <<3>>, <<7>>, SubN(P, <<2>>), SubN(P, <<1>>), SubN(Pow2N(64), <<1>>), Pow2N(32), FromInt(65537) >>
+\* exponents: small ones, around the modulus, at and above every power of two near the modulus size (an exponent is an integer of
+\* the field's word size, not a residue: 2^62 and 2^63 exceed the 62-bit modulus), the largest of the word size
+Exps   == << <<>>, <<1>>, <<2>>, <<3>>, <<7>>, SubN(P, <<2>>), SubN(P, <<1>>), SubN(Pow2N(64), <<1>>), Pow2N(32), FromInt(65537),
+             Pow2N(62) >>
+\* the variable-time exponentiation (the trait's default method, which the fields do not all override): the exponents above the
+\* modulus size and a few of the others
+VExps  == << <<3>>, Pow2N(62), Pow2N(63), AddN(Pow2N(62), <<5>>) >>
+          \o (IF Word = 128 THEN << Pow2N(127) >> ELSE << >>)
 Smalls == << <<>>, <<1>>, <<2>>, SubN(Pow2N(32), <<1>>), Pow2N(31), FromInt(65536) >>
 
 O(op, d, a, b, e) == [op |-> op, d |-> d, a |-> a, b |-> b, e |-> e]
@@ -45,12 +52,14 @@ vars == <<scn, done>>
 \* exhaustive: one scenario per ordered pair of classes, performing every operation on (r0, r1) into r2 / r3
 PairOps == SetToSeq({O(op, 2, 0, 1, <<>>) : op \in Binary}) \o SetToSeq({O(op, 3, 0, 0, <<>>) : op \in Unary})
            \o [k \in 1..Len(Exps) |-> O("exp", 3, 0, 0, Pad(Exps[k]))]
+           \o [k \in 1..Len(VExps) |-> O("exp_vartime", 3, 0, 0, Pad(VExps[k]))]
            \o [k \in 1..Len(Smalls) |-> O("mul_small", 3, 0, 0, Pad(Smalls[k]))]
            \o << O("add", 2, 3, 2, <<>>), O("inv", 3, 2, 2, <<>>), O("mul", 2, 2, 3, <<>>) >>
 
-RandOp == LET op == RandomElement(Binary \cup Unary \cup {"exp", "mul_small"})
+RandOp == LET op == RandomElement(Binary \cup Unary \cup {"exp", "exp_vartime", "mul_small"})
               d == RandomElement(0..3)  a == RandomElement(0..3)  b == RandomElement(0..3)
           IN  O(op, d, a, b, IF op = "exp" THEN Pad(Exps[RandomElement(1..Len(Exps))])
+                             ELSE IF op = "exp_vartime" THEN Pad(VExps[RandomElement(1..Len(VExps))])
                              ELSE IF op = "mul_small" THEN Pad(Smalls[RandomElement(1..Len(Smalls))]) ELSE <<>>)
 
 Init == /\ done = FALSE
